@@ -14,7 +14,7 @@ from sx import Sym, Str
 
 PROP = "C06"
 PROP_FILE = "C06_Formats"
-THEOREMS = ['c06_est_expr', 'c06_est_conditions_none', 'c06_est_conditions_partial']
+THEOREMS = ['c06_est_expr', 'c06_est_conditions_none', 'c06_est_conditions', 'c06_est_policy', 'c06_est_links']
 
 MANIFEST = {
     "text": "Round trips of policies, templates and linked policy sets through JSON (EST), PST and protobuf are checked on the implementation (equal structural dumps of ids/effects/annotations/scope/conditions/link bindings and equal authorization responses), together with the agreement of the two text->JSON routes and of JSON policies with their printed text; the EST expression/policy conversions are modelled in Gallina (Json.v, Est.v) and est_to_ast (ast_to_est p) = Ok p is proved for the JSON-representable fragment; the model is tied to /repo by differential execution on generated and mutated JSON.",
@@ -124,6 +124,30 @@ def dump_sx(e):
     raise ValueError(e)
 
 
+def uid_dsx(u):
+    return [Sym("uid"), [Str(c) for c in u["type"]], Str(u["id"])]
+
+
+def template_dsx(t):
+    """harness template dump -> the S-expression of Codec.d_template / EstRun.e_template"""
+    def ref(r):
+        return Sym("slot") if r == "slot" else uid_dsx(r)
+
+    def pr(c):
+        if c[0] == "any":
+            return Sym("any")
+        if c[0] in ("eq", "in"):
+            return [Sym(c[0]), ref(c[1])]
+        if c[0] == "is":
+            return [Sym("is"), [Str(x) for x in c[1]]]
+        return [Sym("isin"), [Str(x) for x in c[1]], ref(c[2])]
+    a = t["action"]
+    ac = Sym("any") if a[0] == "any" else ([Sym("eq"), uid_dsx(a[1])] if a[0] == "eq" else [Sym("in"), [uid_dsx(u) for u in a[1]]])
+    b = t["body"]
+    return [Sym("template"), Str(t["id"]), [[Str(k), Str(v)] for k, v in t["annotations"]], Sym(t["effect"]),
+            pr(t["principal"]), ac, pr(t["resource"]), Sym("none") if b is None else [Sym("some"), dump_sx(b)]]
+
+
 def sx_tree(s):
     """model e_json output -> canonical python value (object keys sorted)"""
     t = str(s[0])
@@ -152,44 +176,37 @@ def canon_json(j):
 
 def correspondence(rep, rng, cases, harness, driver, stats, n_mut):
     import sx as _sx
-    # (1) ast_to_est: Rust AST -> EST (conditions) vs model, on the Rust-parsed AST of every text case
+    # (1) template_to_est: Rust AST -> EST vs model, on the Rust-parsed AST of every text case
     tc = [c for c in cases if c["text"] is not None]
     rres = fw.run_rust(harness, [{"cmd": "est_of_ast", "text": c["text"], "id": "p0"} for c in tc])
     mc, keep = [], []
     for c, r in zip(tc, rres):
         if "ast" in r:
-            b = r["ast"]["body"]
-            mc.append([Sym("est_of_body"), Sym("none") if b is None else [Sym("some"), dump_sx(b)]])
+            mc.append([Sym("template_to_est"), template_dsx(r["ast"])])
             keep.append((c, r))
     mres = fw.run_model(driver, mc)
     for (c, r), m in zip(keep, mres):
         stats["corr_ast_to_est"] += 1
-        if isinstance(m, list) and sx_tree(m) == canon_json(r["json"]["conditions"]):
+        if isinstance(m, list) and sx_tree(m) == canon_json(r["json"]):
             continue
         stats["violations"] += 1
-        rep.violation({"property": PROP, "kind": "model ast_to_est_conditions differs from From<ast::Template> for est::Policy (conditions)",
-                       "model_function": "Est.ast_to_est_expr", "rust_entry": "est::Policy::from(ast::Template) / Expr::into_expr::<est::Builder>",
-                       "text": c["text"], "rust_json": r["json"]["conditions"], "model": _sx.dump(m),
-                       "theorem_whose_transfer_is_lost": "c06_est_expr"}, no_failing_input=True)
-    # (2) est_to_ast: valid and mutated JSON documents (mutations inside `conditions`)
-    docs = []
-    for c in cases:
-        t = G.tree(c["json"])
-        docs.append((t, "valid"))
-    pool = [d for d in docs if any(k == "conditions" and v[1] for k, v in d[0][1])]
+        rep.violation({"property": PROP, "kind": "model template_to_est differs from From<ast::Template> for est::Policy",
+                       "model_function": "EstPolicy.template_to_est", "rust_entry": "est::Policy::from(ast::Template)",
+                       "text": c["text"], "rust_json": r["json"], "model": _sx.dump(m),
+                       "theorem_whose_transfer_is_lost": "c06_est_policy"}, no_failing_input=True)
+    # (2) est_to_template: valid and mutated JSON documents (mutations anywhere in the policy object)
+    docs = [(G.tree(c["json"]), "valid") for c in cases]
+    pool = list(docs)
     for _ in range(n_mut):
         t, _k = rng.choice(pool)
-        i = [k for k, _ in t[1]].index("conditions")
-        sub = t[1][i][1]
         kinds = []
         for _m in range(rng.choice([1, 1, 1, 2, 3])):
-            sub, kd = G.mutate(sub, rng)
+            t, kd = G.mutate(t, rng)
             kinds.append(kd)
-        items = list(t[1])
-        items[i] = ("conditions", sub)
-        docs.append((("obj", items), "+".join(kinds)))
+        if t[0] == "obj" and not G.dup_in_ignored_region(t):
+            docs.append((t, "+".join(kinds)))
     rres = fw.run_rust(harness, [{"cmd": "from_json", "id": "p0", "json_str": G.tree_text(t)} for t, _ in docs])
-    mcmds = [[Sym("est_conditions"), G.tree_sx(dict(t[1])["conditions"])] for t, _ in docs]
+    mcmds = [[Sym("est_to_template"), Str("p0"), G.tree_sx(t)] for t, _ in docs]
     mres = fw.run_model(driver, mcmds)
     for (t, kd), r, m in zip(docs, rres, mres):
         stats["corr_est_to_ast"] += 1
@@ -198,18 +215,123 @@ def correspondence(rep, rng, cases, harness, driver, stats, n_mut):
             h = stats["mutation_kinds"].setdefault(k, [0, 0])
             h[0 if rust_acc else 1] += 1
         if rust_acc:
-            b = r["accept"]["body"]
-            want = [Sym("ok"), Sym("none") if b is None else [Sym("some"), dump_sx(b)]]
-            ok = _sx.dump(m) == _sx.dump(want)
+            ok = _sx.dump(m) == _sx.dump([Sym("ok"), template_dsx(r["accept"])])
         else:
             ok = "reject" in r and isinstance(m, list) and str(m[0]) == "err"
         if not ok:
             stats["violations"] += 1
-            rep.violation({"property": PROP, "kind": "model est_to_ast_conditions differs from serde + try_into_ast_policy_or_template (%s)" % kd,
-                           "model_function": "Est.est_to_ast_conditions", "rust_entry": "serde_json::from_str::<est::Policy> + try_into_ast_policy_or_template",
+            rep.violation({"property": PROP, "kind": "model est_to_template differs from serde + try_into_ast_policy_or_template (%s)" % kd,
+                           "model_function": "EstPolicy.est_to_template", "rust_entry": "serde_json::from_str::<est::Policy> + try_into_ast_policy_or_template",
                            "json_str": G.tree_text(t), "rust": r, "model": _sx.dump(m)[:3000],
-                           "theorem_whose_transfer_is_lost": "c06_est_expr / c06_est_conditions"}, no_failing_input=True)
+                           "theorem_whose_transfer_is_lost": "c06_est_expr / c06_est_policy"}, no_failing_input=True)
     return mc[:20] + mcmds[:10] + mcmds[-10:]
+
+
+def has_slot_sx(t):
+    """template sexp (d_template form): does the principal/resource constraint mention the slot"""
+    return any(isinstance(c, list) and c and c[-1] == "slot" for c in (t[4], t[6]))
+
+
+def canon_set_json(j, already=False):
+    j = dict(j if already else canon_json(j))
+    j["templateLinks"] = sorted(j.get("templateLinks", []), key=lambda l: l.get("newId", ""))
+    return j
+
+
+def gen_set_doc(rng, w, depth):
+    tpls = [G.gen_policy(rng, w, True, "t%d" % k, depth) for k in range(rng.choice([0, 1, 2]))]
+    pols = [G.gen_policy(rng, w, False, "s%d" % k, depth) for k in range(rng.choice([0, 1, 2, 3]))]
+    links = []
+    for k in range(rng.choice([0, 1, 2, 3]) if tpls else 0):
+        t = rng.choice(tpls)
+        slots = {}
+        if "slot" in t["principal"]:
+            slots["?principal"] = cedar.uid_json(rng.choice(w.uids))
+        if "slot" in t["resource"]:
+            slots["?resource"] = cedar.uid_json(rng.choice(w.uids))
+        c = rng.random()
+        if c < 0.08 and slots:
+            slots.pop(rng.choice(sorted(slots)))                      # missing binding
+        elif c < 0.16:
+            slots[rng.choice(["?principal", "?resource"])] = cedar.uid_json(rng.choice(w.uids))   # possibly extra binding
+        elif c < 0.22:
+            slots = {k2: {"__entity": v} for k2, v in slots.items()}   # explicit escape
+        lid = "l%d" % k
+        if rng.random() < 0.06:
+            lid = rng.choice(["s0", "t0", "l0"])                       # id conflicts
+        links.append({"templateId": t["id"] if rng.random() > 0.05 else "nope", "newId": lid, "values": slots})
+    tp = {t["id"]: G.policy_est(t, rng) for t in tpls}
+    sp = {p["id"]: G.policy_est(p, rng) for p in pols}
+    if tpls and rng.random() < 0.05:
+        sp["t0"] = G.policy_est(G.gen_policy(rng, w, False, "t0", 1), rng)     # static id = template id
+    if tpls and rng.random() < 0.05:
+        sp["sx"] = tp[tpls[0]["id"]]                                           # template body among statics
+    if pols and rng.random() < 0.05:
+        tp["tx"] = sp[pols[0]["id"]]                                           # slot-free "template"
+    return {"templates": tp, "staticPolicies": sp, "templateLinks": links}
+
+
+def set_correspondence(rep, rng, harness, driver, stats, n_docs, n_mut, depth):
+    import sx as _sx
+    docs = []
+    w = None
+    for i in range(n_docs):
+        if i % 3 == 0:
+            w = gen.World(rng)
+        docs.append((G.tree(gen_set_doc(rng, w, depth)), "valid"))
+    pool = list(docs)
+    for _ in range(n_mut):
+        t, _k = rng.choice(pool)
+        kinds = []
+        for _m in range(rng.choice([1, 1, 2])):
+            t, kd = G.mutate(t, rng)
+            kinds.append(kd)
+        if t[0] == "obj" and not G.dup_in_ignored_region(t):
+            docs.append((t, "+".join(kinds)))
+    texts = [G.tree_text(t) for t, _ in docs]
+    rres = fw.run_rust(harness, [{"cmd": "from_json", "kind": "set", "json_str": x} for x in texts])
+    mcmds = [[Sym("est_to_pset"), G.tree_sx(t)] for t, _ in docs]
+    mres = fw.run_model(driver, mcmds)
+    rt_idx = []
+    for i, ((t, kd), r, m) in enumerate(zip(docs, rres, mres)):
+        stats["corr_set"] += 1
+        acc = "accept" in r
+        h = stats["set_kinds"].setdefault(kd.split("+")[0], [0, 0])
+        h[0 if acc else 1] += 1
+        if acc:
+            want_t = sorted((_sx.dump(template_dsx(x)) for x in r["accept"]["templates"]))
+            want_p = sorted(_sx.dump([Str(p["id"]), [Sym("policy"), template_dsx(p["template"]),
+                                                    Sym("none") if p["static"] else [Sym("some"), Str(p["id"])],
+                                                    [[Sym(k), uid_dsx(u)] for k, u in p["env"]]]]) for p in r["accept"]["policies"])
+            ok = isinstance(m, list) and str(m[0]) == "ok"
+            if ok:
+                ps = m[1]
+                got_t = sorted(_sx.dump(x) for x in ps[1] if has_slot_sx(x))
+                got_p = sorted(_sx.dump([e[0], [e[1][0], e[1][1], e[1][2], sorted(e[1][3], key=lambda z: str(z[0]))]]) for e in ps[2])
+                ok = got_t == want_t and got_p == want_p
+            if ok and kd == "valid":
+                rt_idx.append(i)
+        else:
+            ok = "reject" in r and isinstance(m, list) and str(m[0]) == "err"
+        if not ok:
+            stats["violations"] += 1
+            rep.violation({"property": PROP, "kind": "model est_to_pset differs from PolicySet::from_json_str (%s)" % kd,
+                           "model_function": "EstSet.est_to_pset", "rust_entry": "cedar_policy::PolicySet::from_json_str",
+                           "json_str": texts[i], "rust": r, "model": _sx.dump(m)[:3000],
+                           "theorem_whose_transfer_is_lost": "c06_est_links"}, no_failing_input=True)
+    # to_json of the AST-only set vs the model's document of the built set
+    rres = fw.run_rust(harness, [{"cmd": "json_rt", "kind": "set", "set_json": json.loads(texts[i]), "requests": [], "entities": []} for i in rt_idx])
+    mres = fw.run_model(driver, [[Sym("set_rt"), G.tree_sx(docs[i][0])] for i in rt_idx])
+    for i, r, m in zip(rt_idx, rres, mres):
+        stats["corr_set_to_json"] += 1
+        if "ast_json" in r and isinstance(m, list) and str(m[0]) == "ok" and canon_set_json(sx_tree(m[1]), True) == canon_set_json(r["ast_json"]):
+            continue
+        stats["violations"] += 1
+        rep.violation({"property": PROP, "kind": "model pset_to_estset/estset_to_est differs from PolicySet::to_json (AST route)",
+                       "model_function": "EstSet.estset_to_est (pset_to_estset s)", "rust_entry": "PolicySet::from(ast).to_json()",
+                       "json_str": texts[i], "rust": r.get("ast_json", r), "model": _sx.dump(m)[:3000],
+                       "theorem_whose_transfer_is_lost": "c06_est_links"}, no_failing_input=True)
+    return mcmds[:6]
 
 
 # ------------------------------------------------------------------ oracle
@@ -342,7 +464,9 @@ def run(rep, tier, seed):
             check_rt(rep, kind, cmd, r, stats)
     driver = fw.build_model_driver()
     stats.update({"corr_ast_to_est": 0, "corr_est_to_ast": 0, "mutation_kinds": {}})
-    xc = correspondence(rep, rng, cases, harness, driver, stats, 1500 if quick else 30000)
+    xc = correspondence(rep, rng, cases, harness, driver, stats, 2500 if quick else 40000)
+    stats.update({"corr_set": 0, "corr_set_to_json": 0, "set_kinds": {}})
+    xc += set_correspondence(rep, rng, harness, driver, stats, 300 if quick else 5000, 500 if quick else 8000, 3 if quick else 4)
     nx = fw.coq_crosscheck(xc, fw.run_model(driver, xc), PROP)
     ops = {}
     for c in cases:
@@ -357,19 +481,22 @@ def run(rep, tier, seed):
         "trusted_base": fw.TRUSTED_BASE, "theorems": details,
         "evaluations": len(cmds), "distinct_nontrivial": distinct,
         "rule": "distinct by hash of the whole harness command; every command performs at least one full conversion there and back on a generated policy/template/set with >= 0 conditions",
-        "traces_validated_against_impl": sum(stats["round_trips"].values()) + stats["corr_ast_to_est"] + stats["corr_est_to_ast"],
+        "traces_validated_against_impl": sum(stats["round_trips"].values()) + stats["corr_ast_to_est"] + stats["corr_est_to_ast"] + stats["corr_set"] + stats["corr_set_to_json"],
         "round_trips": stats["round_trips"], "rejected_inputs": stats["rejected"], "tolerated_errors": stats["tolerated"],
         "rejected_samples": stats.get("rejected_samples", []),
         "print_ast_differs": stats["print_ast_differs"], "routes_json_differ": stats.get("routes_json_differ", 0),
         "set_rust_eq_false_order_sensitive": stats.get("set_rust_eq_false", 0),
-        "correspondence": {"ast_to_est_conditions": stats["corr_ast_to_est"], "est_to_ast_conditions": stats["corr_est_to_ast"],
-                           "mutation_kinds_[accepted,rejected]": stats["mutation_kinds"]},
+        "correspondence": {"template_to_est": stats["corr_ast_to_est"], "est_to_template": stats["corr_est_to_ast"],
+                           "mutation_kinds_[accepted,rejected]": stats["mutation_kinds"],
+                           "est_to_pset": stats["corr_set"], "set_to_json": stats["corr_set_to_json"],
+                           "set_doc_kinds_[accepted,rejected]": stats["set_kinds"]},
         "vm_compute_crosscheck_cases": nx,
         "operator_histogram": ops,
         "set_shapes": {str(k): sum(1 for s in sets if s["n"] == k) for k in sorted({s["n"] for s in sets})},
         "samples": [{k: v for k, v in c.items() if k not in ("entities", "requests")} for c in cmds[:2]],
     }
-    rep.assumptions = ["nesting depth of generated conditions <= %d" % (4 if quick else 6),
+    rep.assumptions = ["model correspondence: documents with duplicate keys inside a scope constraint or a link's values are filtered (serde does not look into ignored fields of buffered enums; json_nodup is a blanket rule)",
+                       "nesting depth of generated conditions <= %d" % (4 if quick else 6),
                        "PST and protobuf: oracle only (no Coq model; c06_pst / c06_proto not proved)",
                        "error messages are not compared"]
 
